@@ -74,10 +74,14 @@ def monotone_cycles_phase(draw, min_cycles=2, max_cycles=8, min_len=8, max_len=4
     rng = np.random.default_rng(k)
     parts = []
     for ln in lens:
-        w = 1.0 + warp * (rng.random(ln + 1) - 0.5)
-        c = np.cumsum(w)
-        c = c / c[-1]                         # in (0, 1], strictly increasing
-        ph = c[:-1] * TWO_PI                   # last value < 2pi, first > 0
+        w = 1.0 + warp * (rng.random(ln) - 0.5)
+        u = np.cumsum(w)
+        delta = 0.01 + 0.03 * rng.random()
+        if ln > 1:
+            u = (u - u[0]) / (u[-1] - u[0])       # 0 .. 1, strictly increasing
+        else:
+            u = np.array([0.5])
+        ph = TWO_PI * (delta + (1 - 2 * delta) * u)   # from just above 0 to just below 2pi
         parts.append(ph)
     return np.concatenate(parts), lens
 
